@@ -52,3 +52,15 @@ package netmap
 //@   property C38
 //@   valid !epochRecorded(0)
 //@   ensures [notified_epoch_always_recorded] epochRecorded(0) && recordedEpoch(0) == notifiedEpoch()
+
+// ---- C35: the placement update sent on a new epoch is an Alphabet-signed notary script; the
+// helper does not check membership itself, so it demands it from its caller (isAlpha() is
+// declared in pkg/innerring/verif_contracts.go and established only by IsAlphabet() /
+// AlphabetIndex() answers). The retry closure lives inside the helper.
+//@ ghost pred isAlpha() bool
+//@ func (*Processor).updatePlacementInContract
+//@   property C35
+//@   requires [caller_checked_alphabet_membership] isAlpha()
+//@ func (*Processor).updatePlacementInContract$2
+//@   property C35
+//@   requires [created_only_inside_the_guarded_helper] isAlpha()
